@@ -158,6 +158,7 @@ type Exec struct {
 	reshapeSeen bool
 	lastDynSig *types.Signature
 	probePhis map[string]*ssa.Phi
+	emptyRange string
 }
 
 type probeInfo struct {
@@ -523,11 +524,24 @@ func (x *Exec) assemble(lines []string, o *Obligation, withModel bool, inst bool
 		b.WriteString(l)
 		b.WriteByte('\n')
 	}
-	b.WriteString(x.prog.lemmaInstances(lines, o.Goal))
+	rounds := 1
+	if inst {
+		rounds = 3
+	}
+	li := x.prog.lemmaInstancesN(lines, o.Goal, rounds)
+	b.WriteString(li)
 	var decls, extra []string
 	negGoal := sx("assert", not(o.Goal))
 	if inst {
-		decls, extra, negGoal = preInstantiate(lines, o.PC, o.Goal, 0, x.baseSorts())
+		hyps := lines
+		if li != "" {
+			hyps = append(append([]string{}, lines...), strings.Split(li, "\n")...)
+		}
+		var lemmaLines []string
+		if li != "" {
+			lemmaLines = strings.Split(li, "\n")
+		}
+		decls, extra, negGoal = preInstantiate(hyps, o.PC, o.Goal, 0, x.baseSorts(), lemmaLines...)
 	}
 	for _, d := range decls {
 		b.WriteString(d + "\n")
